@@ -215,6 +215,7 @@ type diskDriver struct {
 	path  string
 	bufs  [][]byte
 	glob  bool
+	nrt   uint64 // operations routed so far (global disks: wrapper, Get() and the handle given to Init are one disk)
 	async bool
 	file  bool
 	hung  bool // an operation did not return: the disk is unusable until the next `new`
@@ -247,6 +248,14 @@ func (dd *diskDriver) open(n uint64) string {
 		disk.Init(dd.d)
 	}
 	return "ok"
+}
+
+// route says how the next operation on a global disk reaches it: 0 through the package-level wrapper, 1 through
+// disk.Get(), 2 through the handle that was given to disk.Init — deterministic, not periodic in step with the generator
+func (dd *diskDriver) route() int {
+	dd.nrt++
+	x := dd.nrt*2654435761 + dd.nrt/3
+	return int((x >> 7) % 3)
 }
 
 func (dd *diskDriver) closeDisk() {
@@ -377,7 +386,14 @@ func (dd *diskDriver) one(w []string) string {
 		return guard(func() string {
 			var blk []byte
 			if dd.glob {
-				blk = disk.Read(a)
+				switch dd.route() {
+				case 0:
+					blk = disk.Read(a)
+				case 1:
+					blk = disk.Get().Read(a)
+				default:
+					blk = dd.d.Read(a)
+				}
 			} else {
 				blk = dd.d.Read(a)
 			}
@@ -406,7 +422,14 @@ func (dd *diskDriver) one(w []string) string {
 		}
 		return guard(func() string {
 			if dd.glob {
-				disk.Write(a, dd.bufs[b])
+				switch dd.route() {
+				case 0:
+					disk.Write(a, dd.bufs[b])
+				case 1:
+					disk.Get().Write(a, dd.bufs[b])
+				default:
+					dd.d.Write(a, dd.bufs[b])
+				}
 			} else {
 				dd.d.Write(a, dd.bufs[b])
 			}
@@ -414,14 +437,14 @@ func (dd *diskDriver) one(w []string) string {
 		})
 	case "size":
 		return guard(func() string {
-			if dd.glob {
+			if dd.glob && dd.route() == 0 {
 				return fmt.Sprintf("n %d", disk.Size())
 			}
 			return fmt.Sprintf("n %d", dd.d.Size())
 		})
 	case "barrier":
 		return guard(func() string {
-			if dd.glob {
+			if dd.glob && dd.route() == 0 {
 				disk.Barrier()
 			} else {
 				dd.d.Barrier()
